@@ -81,3 +81,8 @@ def kf_cpy_same_pointer(case, o, kind, cfg, consts):
     m = case.meta
     if m['kind'] != 'cpy' or m['dest'] is None or m['dest'] != m.get('src'): return False
     return o.ret == '0' and not o.handlers and all(o.blocks[i] == b for i, (_, b) in enumerate(case.blocks))
+
+@pred
+def kf_prescan_miss(case, o, kind, cfg, consts):
+    # handled inline in props.check_C09 (needs the model verdict): libc-delegating entry, pre-scan accepts, format has an n conversion
+    return False
